@@ -1,8 +1,105 @@
-import DendroModel.Basic.Tree
-open DendroModel
+import DendroModel.Model.C17
+open DendroModel DendroModel.C17
+
+def insById {α : Type} (x : Nat × α) : List (Nat × α) → List (Nat × α)
+  | [] => [x]
+  | y :: ys => if x.1 ≤ y.1 then x :: y :: ys else y :: insById x ys
+def byId {α : Type} (l : List (Nat × α)) : List α := (l.foldr insById []).map (·.2)
+
+def insFrac (x : Frac) : List Frac → List Frac
+  | [] => [x]
+  | y :: ys => if Frac.le x y then x :: y :: ys else y :: insFrac x ys
+def sortAsc (l : List Frac) : List Frac := l.foldr insFrac []
+
+def fracs (l : List Frac) : String := " ".intercalate (l.map Frac.render)
+
+def out {α : Type} (f : α → String) : Except Err α → String
+  | .ok a => "ok " ++ f a
+  | .error e => e.render
+
+/-- precision field: `N` none, else a fraction -/
+def parsePrec (s : String) : Option (Option Frac) := parseOLen s
+
+def parseNorm (s : String) : Option Norm :=
+  match s with
+  | "none" => some .none
+  | "mean" => some .mean
+  | "yule" => some .yule
+  | "pdasq" => some .pdaSq
+  | "max" => some .max
+  | _ => none
+
+def parseBool (s : String) : Option Bool :=
+  match s with
+  | "1" => some true
+  | "0" => some false
+  | _ => none
 
 def handle (ws : List String) : String :=
   match ws with
+  | "ages" :: prec :: fmax :: fmin :: intOnly :: rest =>
+    match parsePrec prec, parseBool fmax, parseBool fmin, parseBool intOnly, parseTree rest with
+    | some p, some fx, some fn, some io, some (t, []) =>
+      out (fun a => fracs (byId a.ages) ++ " | " ++ fracs (sortAsc (a.returned io))) (calcNodeAges ⟨p, fx, fn⟩ t)
+    | _, _, _, _, _ => "bad-op"
+  | "setlen" :: minLen :: errNeg :: ages :: rest =>
+    match parsePrec minLen, parseBool errNeg, (ages.splitOn ",").mapM Frac.parse, parseTree rest with
+    | some m, some en, some as, some (t, []) =>
+      let tbl := (List.range as.length).zip as
+      out (fun a => " ".intercalate ((byId a.lens).map renderOLen)) (setLens m en (withAges tbl t))
+    | _, _, _, _ => "bad-op"
+  | "roundtrip" :: prec :: minLen :: errNeg :: rest =>
+    match parsePrec prec, parsePrec minLen, parseBool errNeg, parseTree rest with
+    | some p, some m, some en, some (t, []) =>
+      match calcNodeAges ⟨p, false, false⟩ t with
+      | .error e => e.render
+      | .ok a => out (fun a => " ".intercalate ((byId a.lens).map renderOLen)) (setLens m en a)
+    | _, _, _, _ => "bad-op"
+  | "depths" :: rest =>
+    match parseTree rest with
+    | some (t, []) => out (fun r => fracs (byId (r.map fun p => (p.1, p.2.2)))) (rootDepths t)
+    | _ => "bad-op"
+  | "rages" :: rest =>
+    match parseTree rest with
+    | some (t, []) => out (fun r => fracs (byId r)) (resolveAges t)
+    | _ => "bad-op"
+  | "minmax" :: rest =>
+    match parseTree rest with
+    | some (t, []) => out (fun r => fracs [r.1, r.2]) (minmaxLeafDist t)
+    | _ => "bad-op"
+  | "lineages" :: d :: rest =>
+    match Frac.parse d, parseTree rest with
+    | some d, some (t, []) => out toString (numLineagesAt d t)
+    | _, _ => "bad-op"
+  | "length" :: rest =>
+    match parseTree rest with
+    | some (t, []) => "ok " ++ (C17.length t).render
+    | _ => "bad-op"
+  | "stat" :: name :: arg :: rest =>
+    match parseTree rest with
+    | some (t, []) =>
+      match name with
+      | "nbar" => out Frac.render (nBar t)
+      | "sackin" => match parseNorm arg with
+        | some n => out Frac.render (sackin n t)
+        | none => "bad-op"
+      | "colless" => match parseNorm arg with
+        | some n => out Frac.render (colless n t)
+        | none => "bad-op"
+      | "collessparts" => out (fun (p : Nat × Nat) => s!"{p.2} {p.1}") (collessAcc t)
+      | "b1" => "ok " ++ (b1 t).render
+      | "treeness" => out Frac.render (treeness t)
+      | "gamma" => match parsePrec arg with
+        | some p => out Frac.render (gamma p t)
+        | none => "bad-op"
+      | "gammaparts" => match parsePrec arg with
+        | some p =>
+          match calcNodeAges ⟨p, false, false⟩ t with
+          | .error e => e.render
+          | .ok a => out (fun (r : Frac × Frac × Nat) => s!"{r.1.render} {r.2.1.render} {r.2.2}") (gammaParts a)
+        | none => "bad-op"
+      | _ => "bad-op"
+    | _ => "bad-op"
   | _ => "bad-op"
 
 def main : IO Unit := do driverLoop (← IO.getStdin) handle
